@@ -1033,12 +1033,10 @@ def case_sens_fit(c):
     return {"serial": serial, "parallel": par}
 
 
-# The real-caller cases above are made deterministic with respect to the job-pickling race (known finding
-# job-pickling-race: the feeder thread's first pickling of an instance of a model's class adds __slotnames__ to the class
-# dict that the main thread's model walk may be iterating): every model class used in them is pickled once here, before
-# any case runs.  The race itself is exhibited deterministically by the pickle_walk kind below.
+# Former finding job-pickling-race (fixed by e882fb2: the model walk no longer iterates Model.cls.__dict__, which the
+# job queue's feeder thread grows when it first pickles an instance of that class).  Nothing is pre-pickled here any
+# more: the real-caller cases run with the window open, the pickle_walk kind below forces the interleaving.
 import pickle as _pickle
-_pickle.dumps(af.Gaussian())
 
 _WALK_SERIAL = [0]
 
